@@ -68,6 +68,16 @@ def gen_tables(rng, pf=None):
     rate = None
     if rng.random() < 0.5:
         rate = [round(rng.uniform(0, 0.05), 5) for _ in range(n)]
+        if rng.random() < 0.5:
+            # stretches at exactly zero and below zero (legal: the library accepts rates in [-1, 1])
+            k = 0
+            while k < n:
+                run = rng.randint(1, max(1, n // 4))
+                level = rng.choice([None, None, 0.0, -0.004, -0.02])
+                if level is not None:
+                    for j in range(k, min(n, k + run)):
+                        rate[j] = level
+                k += run
     return {
         "dates": [core.iso(d) for d in dates], "x_rows": xi, "X": [X[j] for j in xi], "Y": Y, "rate": rate,
         "xcols": ["x{}".format(j) for j in range(nx)], "ycols": ["y{}".format(j) for j in range(ny)], "faults": faults, "freq": freq,
